@@ -216,9 +216,16 @@ func body(c *mc.Ctx) {
 			panic(fmt.Sprintf("mc: harness: jobs.New: %v", err))
 		}
 		w.job = job
+		enumerateIDs := true // in the enumerated part an operator may come back under its old id
 		register := func(slot string) {
 			if w.down[slot] {
-				w.gen[slot]++
+				// a process started after a deregistration has a fresh id - except an operator
+				// that is configured with a stable id (NewOperatorParams.ID); not while a slow
+				// deployment is in flight (the Deploy call to the old process would fail then)
+				sameID := enumerateIDs && strings.HasPrefix(slot, "op") && w.net.Held() == 0 && c.Choose(2) == 1
+				if !sameID {
+					w.gen[slot]++
+				}
 				delete(w.down, slot)
 			}
 			id := w.id(slot)
@@ -358,9 +365,10 @@ func body(c *mc.Ctx) {
 				c.Nontrivial(after)
 			}
 		}
-		// bounded liveness: enough fresh registrations, a tick, all acknowledgements
+		// bounded liveness: WorkerCount registrations of each kind, a tick, all acknowledgements
 		// -> a checkpoint with a larger id completes
 		before := w.done
+		enumerateIDs = false
 		c.Op("recover: deployments finish, register all, tick, acknowledge")
 		if w.net.Hold {
 			w.finish = w.lost
@@ -375,10 +383,14 @@ func body(c *mc.Ctx) {
 			w.judge("recover:tick-before-registrations")
 		}
 		w.clock.Advance(time.Second)
-		for _, slot := range nodes {
-			register(slot)
-			w.quiesce()
-			w.judge("recover:register(" + w.id(slot) + ")")
+		// exactly WorkerCount nodes of each kind register (or heartbeat): the standby slots stay as
+		// they are, so that recovery cannot lean on a standby
+		for i := 0; i < p.workers; i++ {
+			for _, slot := range []string{ops[i], srs[i]} {
+				register(slot)
+				w.quiesce()
+				w.judge("recover:register(" + w.id(slot) + ")")
+			}
 		}
 		for try := 0; try < 3 && w.done == before; try++ {
 			if !w.clock.Active("checkpointing") {
